@@ -1035,6 +1035,42 @@ def c20_checks(repo: Repo, tier: str, res: CheckResult, seed: int) -> None:
                             f"the mutable default `{r['value_repr'][:80]}` has a leaf without literal form, so the object of the class "
                             "definition is captured and shared by all loaded results"))
     res.count("FRESH.mutable-default-values", m, 15)
+    # converters: a mutable constant (link_constant(value=[...])) reaches the destination as a display evaluated in the BODY of the
+    # converter; a name bound outside the body (the namespace, or a literal rendered once in the closure maker) is one object for
+    # all results
+    k = 0
+    for r in run_child(repo, tier, seed, "convpipe"):
+        if r.get("kind") != "convpipe" or r.get("harness_error") or r.get("error"):
+            continue
+        consts = [it for it in r["cfg"]["recipe"] if it["k"] == "const" and isinstance(it["value"], (list, dict))]
+        if not consts:
+            continue
+        for cl in r["closures"]:
+            body = "\n".join(l for l in cl["source"].split("\n") if not l.startswith("return "))
+            try:
+                tree = ast.parse(body)
+            except SyntaxError:
+                continue
+            fn = next((x for x in tree.body if isinstance(x, ast.FunctionDef)), None)
+            if fn is None or not (fn.body and isinstance(fn.body[-1], ast.Return) and isinstance(fn.body[-1].value, ast.Call)):
+                continue
+            k += 1
+            res.evaluated(f"G:converter-mutable-constant:{r['idx']}:{fn.name}", True)
+            call = fn.body[-1].value
+            bound_in_body = {t.id for a in ast.walk(fn) if isinstance(a, ast.Assign) for t in a.targets if isinstance(t, ast.Name)}
+            # module-level statements of the emitted text before the def: `constant_0 = [1, 2]` (rendered once) or `= g_constant_0`
+            outer = {t.id: a.value for a in tree.body if isinstance(a, ast.Assign) for t in a.targets if isinstance(t, ast.Name)}
+            for a in list(call.args) + [kw.value for kw in call.keywords]:
+                if isinstance(a, ast.Name) and a.id in outer and a.id not in bound_in_body:
+                    v = outer[a.id]
+                    ns_t = cl["namespace"].get(v.id, {}).get("type", "") if isinstance(v, ast.Name) else ""
+                    if isinstance(v, (ast.List, ast.Dict, ast.Set)) or ns_t in ("builtins.list", "builtins.dict", "builtins.set", "builtins.bytearray"):
+                        res.add(Finding("C20", "FRESH.generated-constant-shared", "adaptix/_internal/conversion/broaching/code_generator.py",
+                                        "_gen_constant_element", f"`{a.id}` = {norm(v)[:40]} outside the body of {fn.name}"[:120],
+                                        f"converter configuration #{r['idx']}: the mutable constant reaches the constructor as `{a.id}`, bound "
+                                        f"ONCE outside the converter's body (`{a.id} = {norm(v)[:40]}`): every converted object holds the same "
+                                        "list / dict, a change of one result changes all later results", 0))
+    res.count("FRESH.converters-with-mutable-constants", k, 2)
 
 
 def _loader_fingerprint(S: LoaderSummary) -> Dict[str, Any]:
@@ -2110,6 +2146,12 @@ def _kind_loader_fp(rec: dict) -> Any:
             else:
                 outs.append("lit:" + d)
         defaults[k] = outs
+    # a default that needs the half-built instance (attrs takes_self) is the constructor's business in that kind and the loader's
+    # in the others: who supplies it is a documented per-kind difference, the value is compared by KIND.default-left-to-constructor
+    for fname, _ft, fdef in rec.get("fields", []):
+        if fdef is not None and fdef[0] == "ts":
+            defaults.pop(fname, None)
+    defaults = {k: v for k, v in defaults.items() if not k.startswith("packed:")}
     groups = {"AggregateLoadError", "CompatExceptionGroup", "UnionLoadError"}
     return {
         "reads": reads,
@@ -2182,6 +2224,14 @@ def c17_checks(repo: Repo, tier: str, res: CheckResult, seed: int) -> None:
                 if k.arg is not None and isinstance(k.value, ast.Name) and k.value.id.startswith("f_"):
                     if k.value.id[2:] != field_of(k.arg):
                         wrong.append(f"parameter `{k.arg}` receives `{k.value.id}`")
+            # packed arguments (`packed_fields['name'] = ...` passed as **packed_fields) are keyed by the PARAMETER of the field
+            pnames = {p[0] for p in rec["ctor_params"]}
+            has_var_kw = any(p[1] == "VAR_KEYWORD" for p in rec["ctor_params"])
+            for r_ in S_.reads:
+                if r_.target.startswith("packed:"):
+                    pk = r_.target[len("packed:"):]
+                    if (pk not in pnames and not has_var_kw) or field_of(pk) != r_.field_id:
+                        wrong.append(f"field `{r_.field_id}` is packed under the keyword `{pk}`, the parameters of the {kind} model are {sorted(pnames)}")
             res.evaluated(f"G:kinds-ctor:{'/'.join(key)}:{kind}", True)
             # a field with a default that the loader does NOT fill in for an omitted value is left to the constructor: the twins
             # agree only if the constructor of this kind has that default itself (a SQLAlchemy constructor applies no column
@@ -2189,7 +2239,7 @@ def c17_checks(repo: Repo, tier: str, res: CheckResult, seed: int) -> None:
             has_default = {field_of(p[0]): (len(p) > 2 and p[2]) for p in rec["ctor_params"]}
             read_ids = {r_.field_id for r_ in S_.reads}
             for fname, _ft, fdef in rec["fields"]:
-                if fdef is None or fdef[0] not in "vf" or fname not in read_ids:
+                if fdef is None or fdef[0] not in ("v", "f", "ts") or fname not in read_ids:
                     continue
                 if fname not in S_.defaults and not has_default.get(fname, False):
                     res.add(Finding("C17", "KIND.default-left-to-constructor", "adaptix/_internal/morphing/model/loader_gen.py", "_is_packed_field",
@@ -2282,8 +2332,15 @@ def c17_checks(repo: Repo, tier: str, res: CheckResult, seed: int) -> None:
         got = {}
         for i, a in enumerate(call.args):
             got[names[i] if i < len(names) else f"#{i}"] = a
+        # a keyword argument is named after the constructor PARAMETER of the field (pydantic: the alias)
+        field_of_param = {v: k for k, v in (r.get("param_of") or {}).items()}
         for k in call.keywords:
-            got[k.arg or "**"] = k.value
+            if k.arg is not None and k.arg not in field_of_param and k.arg in names and (r.get("param_of") or {}).get(k.arg, k.arg) != k.arg:
+                res.add(Finding("C17", "KIND.converter-field", MCP, "ModelCoercerProvider", f"{ident}: keyword {k.arg}",
+                                f"converter {ident}: `{norm(call)[:160]}` passes the field `{k.arg}` under its FIELD ID; the parameter "
+                                f"of the {r['dst_kind']} constructor is `{r['param_of'][k.arg]}`: the value is dropped or refused while the "
+                                "twins of the other kinds receive it", 0))
+            got[field_of_param.get(k.arg, k.arg) if k.arg is not None else "**"] = k.value
         for nm_ in r.get("skipped", []):
             if nm_ in got:
                 res.add(Finding("C17", "KIND.converter-field", MCP, "ModelCoercerProvider", f"{ident}: {nm_} <- {norm(got[nm_])[:40]}",
